@@ -1,9 +1,10 @@
 import functools
 import operator
+from copy import deepcopy
 from types import new_class
 from typing import Any, Dict, Optional, Set, Type, TypeVar
 
-from confectioner.templating import set_dotted_key
+from confectioner.templating import get_dotted_key, set_dotted_key
 
 from .types import Evaluatable, Options, Value
 
@@ -96,7 +97,9 @@ class _DatasetClassMixin:
 
         self._repr_options = {}
         for key in sorted(self.__class__.keys(options)):  # type: ignore [attr-defined]
-            value = options.get(key)
+            # Keys may be dotted; copy so that a nested key written afterwards does
+            # not write through to the caller's dictionary.
+            value = deepcopy(get_dotted_key(key, options))
             set_dotted_key(key, value, self._repr_options)
 
     def __repr__(self):
